@@ -449,10 +449,28 @@ def generate():
     in_while = [s for s in kids(wbody) if strip(s).get("kind") == "CXXMemberCallExpr" and strip(kids(strip(s))[0]).get("name") == "doPendingFunctors"]
     if len(in_while) != 1:
         raise ExtractError("EventLoop::loop: expected one doPendingFunctors() in the while body")
-    after = [s for s in st[i_w + 1:] if strip(s).get("kind") == "CXXMemberCallExpr" and strip(kids(strip(s))[0]).get("name") == "doPendingFunctors"]
-    if len(after) > 1:
-        raise ExtractError("EventLoop::loop: more than one doPendingFunctors() after the while")
-    out.append("/-- `EventLoop::loop`: one more `doPendingFunctors()` after the `while` (functors queued before `quit()` still run) -/\n"
-               "def finalDrain : Bool := %s\n" % ("true" if after else "false"))
+    def is_drain(x):
+        x = strip(x)
+        return x.get("kind") == "CXXMemberCallExpr" and strip(kids(x)[0]).get("name") == "doPendingFunctors"
+    after = [s for s in st[i_w + 1:] if is_drain(s)]
+    dos = [s for s in st[i_w + 1:] if s.get("kind") == "DoStmt" and any(is_drain(x) for x in walk(s))]
+    if len(after) + len(dos) > 1:
+        raise ExtractError("EventLoop::loop: more than one drain of the functor queue after the while")
+    repeats = False
+    if dos:
+        body, cond = kids(dos[0])[0], strip(kids(dos[0])[1])
+        stmts = kids(body) if body.get("kind") == "CompoundStmt" else [body]
+        if len(stmts) != 1 or not is_drain(stmts[0]):
+            raise ExtractError("EventLoop::loop: the do-while after the loop is not `do { doPendingFunctors(); } while (...)`")
+        okc = cond.get("kind") == "BinaryOperator" and cond.get("opcode") == ">" and mentions(cond, "queueSize") \
+            and [int(x["value"]) for x in walk(cond) if x.get("kind") == "IntegerLiteral"] == [0]
+        if not okc:
+            raise ExtractError("EventLoop::loop: the do-while after the loop does not test `queueSize() > 0`")
+        repeats = True
+    out.append("/-- `EventLoop::loop`: the functor queue is drained once more after the `while` (functors queued before `quit()` still run) -/\n"
+               "def finalDrain : Bool := %s\n" % ("true" if (after or dos) else "false"))
+    out.append("/-- `EventLoop::loop`: that drain is repeated until the queue is empty (`do { doPendingFunctors(); } while (queueSize() > 0)`):\n"
+               "functors queued by the functors of the drain run as well -/\n"
+               "def finalDrainRepeats : Bool := %s\n" % ("true" if repeats else "false"))
     out.append("end MuduoVerif.Gen.Owner\n")
     return "\n".join(out)
